@@ -88,7 +88,19 @@ def generate() -> str:
                 facts["keepC"] = '(.other "no filter")'
 
         def unique_source(it):
-            return isinstance(it, ast.Call) and src(it.func) == "np.unique" and len(it.args) == 1 and isinstance(it.args[0], ast.Name)
+            """(array name, how the loop variable is obtained from a distinct value i) or None: `np.unique(A)` itself, or a
+            generator / list / map over it that converts every value"""
+            if isinstance(it, ast.Call) and src(it.func) == "np.unique" and len(it.args) == 1 and isinstance(it.args[0], ast.Name):
+                return it.args[0].id, (lambda: Val('(.var "i")', "py"))
+            if isinstance(it, (ast.GeneratorExp, ast.ListComp)) and len(it.generators) == 1 and not it.generators[0].ifs \
+                    and isinstance(it.generators[0].target, ast.Name):
+                inner = unique_source(it.generators[0].iter)
+                if inner is not None:
+                    nm, elt = it.generators[0].target.id, it.elt
+                    return inner[0], (lambda: ev(elt, {nm: inner[1]()}))
+            if isinstance(it, ast.Call) and src(it.func) == "map" and len(it.args) == 2 and src(it.args[0]) == "int":
+                return unique_source(it.args[1])
+            return None
 
         for st in fn.body:
             if isinstance(st, ast.Expr) and isinstance(st.value, ast.Constant):
@@ -108,20 +120,22 @@ def generate() -> str:
                 comp = st.value
             if comp is not None:
                 g = comp.generators[0]
-                if unique_source(g.iter) and isinstance(g.target, ast.Name):
-                    code_var = g.iter.args[0].id
+                us = unique_source(g.iter)
+                if us and isinstance(g.target, ast.Name):
+                    code_var = us[0]
                     facts["uniqueOf"] = "true"
                     e2 = dict(env)
-                    e2[g.target.id] = Val('(.var "i")', "py")
+                    e2[g.target.id] = us[1]()
                     e2_m = {k: (Val('(.var "M")', "py") if k == max_ref_name(env) else v) for k, v in e2.items()}
                     elements(comp.elt, list(g.ifs), e2_m)
                 continue
             if isinstance(st, ast.For) and unique_source(st.iter) and isinstance(st.target, ast.Name):
                 # the same as a loop: [x = int(i)] ; if <drop>: continue ; out.append((a, b))   or   if <keep>: out.append((a, b))
-                code_var = st.iter.args[0].id
+                us = unique_source(st.iter)
+                code_var = us[0]
                 facts["uniqueOf"] = "true"
                 e2 = dict(env)
-                e2[st.target.id] = Val('(.var "i")', "py")
+                e2[st.target.id] = us[1]()
                 e2 = {k: (Val('(.var "M")', "py") if k == max_ref_name(env) else v) for k, v in e2.items()}
                 conds, neg, elt = [], False, None
                 for b in st.body:
